@@ -12,11 +12,14 @@ from common import Report, Sandbox, run_cicada, crashed
 
 OPS = [";", "&&", "||"]
 DECOYS = ["';'", '"&&"', "'||'", "a\\;b", "'#'", '"|"', "\\;", "'a && b'", '"x;y"',
-          '"p\\";q"', '"u \\" && v \\" w"', '"e \\" || f"', "中文", "'日本 ; 語'", '"é && é"', "é"]
+          '"p\\";q"', '"u \\" && v \\" w"', '"e \\" || f"', "中文", "'日本 ; 語'", '"é && é"', "é",
+          # escaped operators as words of their own and inside a word (a word that starts with an escaped | gets a tag of its own)
+          "\\|\\|", "\\|\\|x", "a\\|\\|b", "\\&\\&x", "a\\&\\&b", "\\|"]
 DECOY_VALUES = {"';'": ";", '"&&"': "&&", "'||'": "||", "a\\;b": "a;b", "'#'": "#", '"|"': "|", "\\;": ";",
                 "'a && b'": "a && b", '"x;y"': "x;y",
                 '"p\\";q"': 'p";q', '"u \\" && v \\" w"': 'u " && v " w', '"e \\" || f"': 'e " || f',
-                "中文": "中文", "'日本 ; 語'": "日本 ; 語", '"é && é"': "é && é", "é": "é"}
+                "中文": "中文", "'日本 ; 語'": "日本 ; 語", '"é && é"': "é && é", "é": "é",
+                "\\|\\|": "||", "\\|\\|x": "||x", "a\\|\\|b": "a||b", "\\&\\&x": "&&x", "a\\&\\&b": "a&&b", "\\|": "|"}
 
 # operands that set the status to 0 without running a program
 SILENT = {"source-defs": "source defs.sh", "assign": "VA%(i)d=v%(i)d", "assign2": "VA%(i)d=1 VB%(i)d=2", "export": "export VX%(i)d=1", "cd": "cd .", "alias": "alias zz%(i)d=vp_a"}
@@ -47,7 +50,7 @@ def model(prog):
             ev.append(("vp_status", [str(opd[1]), opd[2]] + [DECOY_VALUES[d] for d in opd[3]]))
             st = opd[1]
         elif opd[0] == "q":
-            ev.append(("vp_argv", ["Q%d" % i, str(st)]))
+            ev.append(("vp_argv", ["Q%d" % i] + [DECOY_VALUES[d] for d in (opd[2] if len(opd) > 2 else ())] + [str(st)]))
             st = 0
         elif opd[0] == "k":
             # an operand that is killed by a signal: status 128+signal
@@ -68,7 +71,9 @@ def render(prog, spacing):
         if opd[0] == "s":
             parts.append("vp_status %d %s" % (opd[1], opd[2]) + "".join(" " + d for d in opd[3]))
         elif opd[0] == "q":
-            parts.append("vp_argv Q%d %s" % (i, "${?}" if len(opd) > 1 and opd[1] == "brace" else "$?"))
+            # (the probe may carry decoy words before the status: the expansion pass walks every word of the command)
+            parts.append("vp_argv Q%d %s%s" % (i, "".join(d + " " for d in (opd[2] if len(opd) > 2 else ())),
+                                              "${?}" if len(opd) > 1 and opd[1] == "brace" else "$?"))
         elif opd[0] == "k":
             parts.append("vp_status sig%d %s" % (opd[1], opd[2]))
         else:
@@ -149,7 +154,7 @@ def gen_cases(tier, seed):
             op = None if i == 0 else rng.choice(OPS)
             r = rng.random()
             if r < 0.3:
-                opd = ("q", rng.choice(["plain", "plain", "brace"]))
+                opd = ("q", rng.choice(["plain", "plain", "brace"]), tuple(rng.choice(DECOYS) for _ in range(rng.choice([0, 0, 1, 2]))))
             elif r < 0.42:
                 opd = ("z", rng.choice(sorted(SILENT)))
             elif r < 0.5:
